@@ -62,24 +62,30 @@ def rawPoints (h : Handle) (k : Int) : R (List Point) :=
   | none => .error (.panic "index out of range")
   | some a => h.readPoints ((List.range a.n).map fun j => a.offset + 12 * j)
 
+/-- the offsets the two-branch loop of ⟦Whisper.fetchRawPoints⟧ reads, in order -/
+def rawOffsets (a : Arch) (base fromI untilI : Nat) : List Nat :=
+  let fromOff := a.pointOffsetAt (a.pointIndex base fromI)
+  let untilOff := a.pointOffsetAt (a.pointIndex base untilI)
+  if fromOff < untilOff then offsRange fromOff untilOff
+  else
+    let arcStart := a.offset
+    let arcEnd := u32 ((arcStart : Int) + (u32 ((a.n : Int) * 12) : Int))
+    offsRange fromOff arcEnd ++ offsRange arcStart untilOff
+
 /-- ⟦Whisper.fetchRawPoints⟧ : allocate `count` points, then fill them by the two-branch
     loop.  Reading more than `count` is an error (repaired: it was an index panic; it
     happens only when the stored base interval is misaligned); fewer leaves zero points. -/
-def fetchRawPoints (h : Handle) (a : Arch) (fromI untilI : Nat) : R (List Point) := do
-  let base ← h.baseInterval a
-  let count := Int.tdiv (tsSub untilI fromI) a.step
-  if count < 0 then throw (.panic "makeslice: len out of range")
-  let fromOff := a.pointOffsetAt (a.pointIndex base fromI)
-  let untilOff := a.pointOffsetAt (a.pointIndex base untilI)
-  let offs :=
-    if fromOff < untilOff then offsRange fromOff untilOff
-    else
-      let arcStart := a.offset
-      let arcEnd := u32 ((arcStart : Int) + (u32 ((a.n : Int) * 12) : Int))
-      offsRange fromOff arcEnd ++ offsRange arcStart untilOff
-  if offs.length > count.toNat then throw (.err .invalid)
-  let pts ← h.readPoints offs
-  return pts ++ List.replicate (count.toNat - offs.length) ⟨0, zeroBits⟩
+def fetchRawPoints (h : Handle) (a : Arch) (fromI untilI : Nat) : R (List Point) :=
+  match h.baseInterval a with
+  | .error e => .error e
+  | .ok base =>
+    let count := Int.tdiv (tsSub untilI fromI) a.step
+    if count < 0 then .error (.panic "makeslice: len out of range") else
+    let offs := rawOffsets a base fromI untilI
+    if offs.length > count.toNat then .error (.err .invalid) else
+    match h.readPoints offs with
+    | .error e => .error e
+    | .ok pts => .ok (pts ++ List.replicate (count.toNat - offs.length) ⟨0, zeroBits⟩)
 
 /-- ⟦clearOldPoints⟧ -/
 def clearOldPoints (step : Int) : Nat → List Point → List Point
@@ -98,30 +104,57 @@ def findBestFrom (diff : Int) : Nat → List Arch → Nat
 def findBestArchive (h : Handle) (t now : Nat) : Nat :=
   findBestFrom (tsSub now t) 0 h.archs
 
-/-- ⟦Whisper.FetchFromArchive⟧ ; `k = -1` is "best"; `now ≠ 0` (the harness never passes 0). -/
-def fetchFromArchive (h : Handle) (k : Int) (from_ until_ now : Nat) : R (Option Series) := do
-  if from_ > until_ then throw (.err .rangeError)
-  if (k ≠ -1 ∧ k < 0) ∨ (h.archs.length : Int) - 1 < k then throw (.err .outOfRange)
-  let id : Nat := if k = -1 then h.findBestArchive from_ now else k.toNat
-  match h.archs[id]? with
-  | none => throw (.panic "index out of range")
+/-- what a fetch will read: decided by layout, window and clock alone -/
+structure FetchPlan where
+  id : Nat
+  a : Arch
+  fromI : Nat
+  untilI : Nat
+  deriving Repr, DecidableEq
+
+/-- the first half of ⟦Whisper.FetchFromArchive⟧: argument checks, archive selection,
+    clamping and alignment.  `k = -1` is "best"; `now ≠ 0` (the harness never passes 0). -/
+def fetchPlan (archs : List Arch) (k : Int) (from_ until_ now : Nat) : R (Option FetchPlan) :=
+  if from_ > until_ then .error (.err .rangeError) else
+  if (k ≠ -1 ∧ k < 0) ∨ (archs.length : Int) - 1 < k then .error (.err .outOfRange) else
+  let id : Nat := if k = -1 then findBestFrom (tsSub now from_) 0 archs else k.toNat
+  match archs[id]? with
+  | none => .error (.panic "index out of range")
   | some a =>
     let oldest := tsAdd now (- a.maxRetention)
-    if from_ > now then return none
-    if until_ < oldest then return none
+    if from_ > now then .ok none else
+    if until_ < oldest then .ok none else
     let from_ := if from_ < oldest then oldest else from_
     let until_ := if until_ > now then now else until_
-    let base ← h.baseInterval a
     let fromI := a.interval from_
     let untilI := a.interval until_
     let untilI := if fromI = untilI then tsAdd untilI a.step else untilI
+    .ok (some ⟨id, a, fromI, untilI⟩)
+
+/-- the second half: read the base interval, then either the all-NaN series of a
+    never-written archive or the ring slots with stale laps blanked -/
+def fetchExec (h : Handle) (p : FetchPlan) : R Series :=
+  match h.baseInterval p.a with
+  | .error e => .error e
+  | .ok base =>
     if base = 0 then
       -- `(untilInterval-fromInterval)/Timestamp(step)` in uint32
-      let cnt := u32 ((untilI : Int) - (fromI : Int)) / u32 a.step
-      return some ⟨fromI, untilI, a.step, List.replicate cnt nanBits⟩
-    let pts ← h.fetchRawPoints a fromI untilI
-    let pts := clearOldPoints a.step fromI pts
-    return some ⟨fromI, untilI, a.step, pts.map (·.v)⟩
+      let cnt := u32 ((p.untilI : Int) - (p.fromI : Int)) / u32 p.a.step
+      .ok ⟨p.fromI, p.untilI, p.a.step, List.replicate cnt nanBits⟩
+    else
+      match h.fetchRawPoints p.a p.fromI p.untilI with
+      | .error e => .error e
+      | .ok pts => .ok ⟨p.fromI, p.untilI, p.a.step, (clearOldPoints p.a.step p.fromI pts).map (·.v)⟩
+
+/-- ⟦Whisper.FetchFromArchive⟧ -/
+def fetchFromArchive (h : Handle) (k : Int) (from_ until_ now : Nat) : R (Option Series) :=
+  match fetchPlan h.archs k from_ until_ now with
+  | .error e => .error e
+  | .ok none => .ok none
+  | .ok (some p) =>
+    match h.fetchExec p with
+    | .error e => .error e
+    | .ok s => .ok (some s)
 
 /-- ⟦Whisper.getPointOffset⟧ -/
 def getPointOffset (h : Handle) (start : Nat) (a : Arch) : R Nat := do
